@@ -14,7 +14,8 @@ RULE = (
     "case = 1-3 approved images, each a flat set of 1-9 generated file names always containing index.wtml, a generated order "
     "in which the operating system lists each directory (toasty.pipeline's os.listdir is replaced by a proxy returning that "
     "order), file sizes 0-4 KiB, store = the real LocalPipelineIo. For EVERY case EVERY fault point is enumerated: before / in "
-    "the middle of / after each individual transfer and before / after the final rename of each image, each in two modes: "
+    "the middle of / after each individual transfer, before / after the store's own rename of the item to its final name, the "
+    "source file missing when its turn comes (listed, then gone for that run), and before / after the final rename of each image, each in two modes: "
     "(a) failure: the transfer raises OSError (after a prefix was written); (b) crash: publish runs in a forked child that "
     "os._exit()s at the point (no finally blocks, no flush). Generated fault sequences (1-3 faults in a row on the same working "
     "directory) are run as well. Oracle after every faulty run: index.wtml of an image in the store => every other file of that "
@@ -108,6 +109,12 @@ def fault_points(case):
         for n in names:
             for kind in ("before", "mid", "after"):
                 pts.append([im["id"], kind, n])
+            if case.get("store", "local") == "local":
+                # inside the store's own write: around the rename that gives the item its final name
+                pts.append([im["id"], "store-rename-before", n])
+                pts.append([im["id"], "store-rename-after", n])
+            # the source file cannot be opened when its turn comes (it is listed, then gone for the duration of the run)
+            pts.append([im["id"], "source-missing", n])
         pts.append([im["id"], "before-rename", None])
         pts.append([im["id"], "after-rename", None])
     return pts
@@ -129,7 +136,13 @@ def run_publish(work, orders, fault, mode, calls_log, store_kind="local"):
     import toasty.pipeline as tp
     from toasty.pipeline import local_io
 
-    def body(action):
+    fault_seen = []  # set once the injected fault has taken effect in this run
+
+    def body(action0):
+        def action():
+            fault_seen.append(1)
+            action0()
+
         mgr = tp.PipelineManager(work)
         saved_put = local_io.LocalPipelineIo.put_item
         orig_put = saved_put if store_kind == "local" else nonatomic_put_item
@@ -143,7 +156,7 @@ def run_publish(work, orders, fault, mode, calls_log, store_kind="local"):
             with open(calls_log, "ab", buffering=0) as lf:
                 lf.write(f"{uid}\t{name}\n".encode())
             # the fault is transient: it hits the first transfer of that file in this run only
-            hit = fault is not None and fault[0] == uid and fault[2] == name and not fired
+            hit = fault is not None and fault[0] == uid and fault[2] == name and not fired and fault[1] in ("before", "mid", "after")
             if hit:
                 fired.append(1)
             if hit and fault[1] == "before":
@@ -155,7 +168,37 @@ def run_publish(work, orders, fault, mode, calls_log, store_kind="local"):
                 action()
             return r
 
+        hidden = []
+
+        class StoreOs(object):
+            """stands in for `os` inside the local store: faults around the rename to the final name"""
+
+            def replace(self_, src, dst):
+                uid, name = os.path.basename(os.path.dirname(dst)), os.path.basename(dst)
+                hit = fault is not None and fault[0] == uid and fault[2] == name and fault[1].startswith("store-rename") and not fired
+                if hit:
+                    fired.append(1)
+                if hit and fault[1] == "store-rename-before":
+                    action()
+                os.replace(src, dst)
+                if hit and fault[1] == "store-rename-after":
+                    action()
+
+            def __getattr__(self_, name):
+                return getattr(os, name)
+
         class OsWithRename(OsProxy):
+            def listdir(self_, path="."):
+                out = OsProxy.listdir(self_, path)
+                if fault is not None and fault[1] == "source-missing" and os.path.basename(os.path.abspath(path)) == fault[0] and not hidden:
+                    src = os.path.join(path, fault[2])
+                    if os.path.isfile(src):
+                        dst = os.path.join(os.path.dirname(os.path.abspath(work)), "hidden-" + fault[2])
+                        real_rename(src, dst)
+                        hidden.append((src, dst))
+                        fault_seen.append(1)
+                return out
+
             def rename(self_, src, dst):
                 uid = os.path.basename(src)
                 hit = fault is not None and fault[0] == uid
@@ -167,13 +210,18 @@ def run_publish(work, orders, fault, mode, calls_log, store_kind="local"):
 
         local_io.LocalPipelineIo.put_item = put_item
         tp.os = OsWithRename(orders)
+        real_store_os = local_io.os
+        local_io.os = StoreOs()
         try:
             mgr.publish()
         finally:
             local_io.LocalPipelineIo.put_item = saved_put
             tp.os = real_os
+            local_io.os = real_store_os
+            for src, dst in hidden:
+                real_rename(dst, src)  # the file is back for the next run
 
-    if mode == "crash" and fault is not None:
+    if mode == "crash" and fault is not None and fault[1] != "source-missing":
         pid = os.fork()
         if pid == 0:
             try:
@@ -194,8 +242,10 @@ def run_publish(work, orders, fault, mode, calls_log, store_kind="local"):
 
     try:
         body(raise_fault)
-    except OSError as e:
-        if "injected" in str(e):
+    except Exception:
+        # once the injected fault has taken effect, publish may fail in whatever way it likes (the statement says what the
+        # store must look like afterwards, not how the failure is reported)
+        if fault_seen:
             return "failed"
         raise
     return "ok"
@@ -357,7 +407,7 @@ def exec_case(case):
     n = 0
     nontrivial_pts = 0
     for pt in pts:
-        for mode in ("fail", "crash"):
+        for mode in (("fail",) if pt[1] == "source-missing" else ("fail", "crash")):
             n += one_history(case, [(pt, mode)], what0)
         im = [i for i in case["images"] if i["id"] == pt[0]][0]
         names = [f[0] for f in im["files"]]
